@@ -277,7 +277,7 @@ def run(tier):
     profiles = collections.Counter()
     for gid, g in graphs(tier, ck.seed):
         r = core.rng(ck.seed, PID, 'cfg', gid)
-        res = xigen.expand(g.files, g.root)
+        res = g.expected or xigen.expand(g.files, g.root)
         for c in make_cases(gid, g, r):
             cases.append(c)
             expect[c.id] = res
